@@ -77,6 +77,8 @@ pub struct Obs {
     pub case: Vec<String>,
     /// the same against rules[1] (for the --dir layout), empty if there is no second rules file
     pub case1: Vec<String>,
+    /// (rules index, case index, what `validate` implies for that case, what `test` returned)
+    pub cross: Vec<(usize, usize, String, String)>,
 }
 
 impl C06 {
@@ -137,6 +139,41 @@ impl C06 {
                     "exit:7" => "7".into(),
                     _ => "E".into(),
                 };
+                // cross-check of the one-case classification: `validate` on the case's input
+                // gives every rule's evaluated status; whether "every stated expectation
+                // matches the evaluated status" follows (a name defined several times: FAIL if
+                // any definition FAILs, else PASS if any PASSes, else SKIP)
+                if (v == "0" || v == "7") && obs.rules[ri] == "P" {
+                    let ci = if ri == 0 { obs.case.len() } else { obs.case1.len() };
+                    w.write_file(&FileSpec { rel: "obs/one_input.json".into(), bytes: doc::render(&c.input, DocFmt::JsonCompact).into_bytes(), mtime_ns: 0 });
+                    let (vc, vo, _e) = self.run1(w, &sv(&["cfn-guard", "validate", "-r", &format!("@/{}", scn.rules[ri]), "-d", "@/obs/one_input.json", "--structured", "-o", "json", "-S", "none"]), &None, rep);
+                    if vc == "exit:0" || vc == "exit:19" {
+                        if let Some(repv) = serde_json::from_slice::<Value>(&vo).ok().and_then(|v| v.as_array().and_then(|a| a.first().cloned())) {
+                            let names = |k: &str| -> Vec<String> { repv.get(k).and_then(|a| a.as_array()).map(|a| a.iter().filter_map(|x| x.as_str().map(String::from)).collect()).unwrap_or_default() };
+                            let failed: Vec<String> = repv.get("not_compliant").and_then(|a| a.as_array()).map(|a| a.iter().filter_map(|e| e.get("Rule").and_then(|r| r.get("name")).and_then(|n| n.as_str()).map(String::from)).collect()).unwrap_or_default();
+                            let passed = names("compliant");
+                            let skipped = names("not_applicable");
+                            let mut all_known = true;
+                            let mut all_match = true;
+                            for (name, want) in &c.expect {
+                                let got = if failed.contains(name) { "FAIL" } else if passed.contains(name) { "PASS" } else if skipped.contains(name) { "SKIP" } else { all_known = false; "" };
+                                if !matches!(want.as_str(), "PASS" | "FAIL" | "SKIP") {
+                                    all_known = false;
+                                }
+                                if got != want {
+                                    all_match = false;
+                                }
+                            }
+                            if all_known {
+                                let implied = if all_match { "0" } else { "7" };
+                                rep.count("reach.test_cross_checked_with_validate", 1);
+                                if implied != v {
+                                    obs.cross.push((ri, ci, implied.to_string(), v.clone()));
+                                }
+                            }
+                        }
+                    }
+                }
                 // an expectation that is none of PASS / FAIL / SKIP cannot "match the evaluated
                 // status": whatever the one-case run says, such a case is never a success
                 if c.expect.iter().any(|(_, st)| !matches!(st.as_str(), "PASS" | "FAIL" | "SKIP")) {
@@ -250,6 +287,15 @@ impl C06 {
         }
         for (i, p) in wl.progs.iter().enumerate() {
             let mut p = p.clone();
+            if !p.rules.is_empty() && r.chance(1, 6) {
+                // one rule name defined twice, the extra definition guarded so that it SKIPs
+                let k = r.usize(p.rules.len());
+                let mut twin = p.rules[k].clone();
+                twin.when.insert(0, crate::rules::Line { alts: vec![crate::rules::Clause::Cmp(crate::rules::Cmp { not: false, q: crate::rules::Query { some: false, parts: vec![crate::rules::Part::Key("zz_never_there".into())] }, op: crate::rules::Op::Exists, opnot: false, rhs: None, msg: None })] });
+                let at = r.usize(p.rules.len() + 1);
+                p.rules.insert(at, twin);
+                rep.count("gen.rule_name_defined_twice", 1);
+            }
             if r.chance(1, 5) {
                 // a rules file whose every rule SKIPs (guard on a key no document has)
                 for rule in p.rules.iter_mut() {
@@ -606,6 +652,16 @@ impl C06 {
     }
 
     fn judge(&self, w: &mut Work, scn: &Scn6, d: &Dlv, obs: &Obs, rep: &mut Report) -> Option<(String, String)> {
+        if d.kind == "cross-test-validate" {
+            // not a delivery: the one-case `test` run against what `validate` says about the same input
+            let (ri, ci) = (d.rules_idx.first().copied().unwrap_or(0), d.data_idx.first().copied().unwrap_or(0));
+            return obs.cross.iter().find(|(r, c, _, _)| *r == ri && *c == ci).map(|(_, _, implied, got)| {
+                (
+                    format!("test-vs-validate/implied-{}-got-{}", implied, got),
+                    format!("`cfn-guard test -r {} -t <case {}>` exits {} but `validate` on the case's input gives statuses for which the stated expectations {} (exit {} expected)", scn.rules[ri], ci + 1, got, if implied == "0" { "all match" } else { "do not all match" }, implied),
+                )
+            });
+        }
         let (class, hard) = self.run_dlv(w, scn, d, rep);
         if class.starts_with("died") || class.starts_with("panic") {
             rep.count("skipped.crash_is_c08", 1);
@@ -682,6 +738,9 @@ impl Check for C06 {
         let mut r = Rng::stream(seed, "deliveries");
         let mut ds = self.deliveries(&mut r, &scn, &obs, kv);
         ds.extend(self.test_deliveries(&mut r, &scn, kt));
+        for (ri, ci, _, _) in &obs.cross {
+            ds.push(Dlv { kind: "cross-test-validate".into(), argv: vec![], stdin: None, dir_mode: "asc".into(), dir_seed: 1, faults: FaultSpec::Off, extra: vec![], missing: vec![], rules_idx: vec![*ri], data_idx: vec![*ci] });
+        }
         let mut done: Vec<String> = Vec::new();
         for d in &ds {
             rep.count(&format!("delivery.{}", d.kind.split('-').next().unwrap_or("")), 1);
